@@ -82,6 +82,12 @@ impl NodeHandle {
                     dependent.dependencies.retain(|&mut id| id != self.0);
                 }
             }
+            // Remove self from the subscriber lists of everything this node depends on.
+            for dependency in this.dependencies {
+                if let Some(dependency) = nodes.get_mut(dependency) {
+                    dependency.dependents.retain(|&id| id != self.0);
+                }
+            }
         }
     }
 
